@@ -13,7 +13,11 @@
       - a point written at the last writable instant MaxNanoTime is returned by no read
         ([C21_filter_points_exact_refuted]);
       - tag values containing a NUL byte make the group sort key ambiguous
-        ([C21_group_key_order_refuted]).
+        ([C21_group_key_order_refuted]);
+      - the value filter of the shared multi-shard cursor survives from one series to the
+        next: a series WITHOUT a field-value condition that follows (same field type) a series
+        WITH one is filtered by the other series' condition in its 2nd..nth shard
+        ([C21_filter_value_condition_refuted]).
     The [_partial] theorems are the full statement outside these corners. *)
 From Coq Require Import String Ascii Sorting.Sorted Permutation.
 From Verif Require Import Base.Prelude Model.C21 Proofs.C21_order Proofs.C21_filter Proofs.C21_group
@@ -45,26 +49,112 @@ Print Assumptions C21_two_stage_predicate.
 
 (** Points of one row, for every data set whose shards have pairwise disjoint non-empty time
     ranges and hold their points inside their range in strictly increasing time order (what
-    C18 and the engine properties provide), for every request window and every series field:
-    the multi-shard cursor over the selected shards, in [findShardIDs] order, yields the points
-    in strictly increasing time order (no duplicate), and a point below MaxNanoTime is yielded
-    iff it is stored in SOME shard of the data set and start <= t < end (none dropped, none
+    C18 and the engine properties provide), for every request window, series field, value
+    condition [cond] of the row and state [st] of the shared cursors — PROVIDED [cursor_ok]: the
+    row has a value condition of its own, or no earlier row of the same field type armed the
+    filter, or at most one shard is selected.  Then the multi-shard cursor over the selected
+    shards, in [findShardIDs] order, yields the points in strictly increasing time order (no
+    duplicate), and a point below MaxNanoTime is yielded iff it is stored in SOME shard of the
+    data set, start <= t < end and its value passes the row's own condition (none dropped, none
     invented; shards that are not selected hold no point of the window). *)
-Theorem C21_filter_points_exact_partial : forall shs start end_ s f,
+Theorem C21_filter_points_exact_partial : forall shs start end_ s f st ty cond,
   wf_dataset shs ->
   let lo := clamp_start start in
   let e := clamp_end end_ in
-  let pts := multi_cursor (select_shards shs lo e) lo (e - 1) s f in
+  let sel := select_shards shs lo e in
+  cursor_ok st ty cond sel ->
+  let pts := fst (multi_cursor_v st ty cond sel lo (e - 1) s f) in
   StronglySorted pt_lt pts /\
   forall t v, (t < MaxNanoTime)%Z ->
-    (In (t, v) pts <-> stored_point shs s f t v /\ (start <= t < end_)%Z).
+    (In (t, v) pts <->
+     stored_point shs s f t v /\ (start <= t < end_)%Z /\ vpass cond v = true).
 Proof.
-  intros shs start end_ s f W lo e pts. split.
-  - apply multi_cursor_sorted; [|apply select_ordered, W].
+  intros shs start end_ s f st ty cond W lo e sel OK pts. subst pts.
+  rewrite (multi_cursor_v_ok _ _ _ _ _ _ _ _ OK). split.
+  - apply vfilter_sorted, multi_cursor_sorted; [|apply select_ordered, W].
     intros sh H. apply select_in in H as [H _]. apply (wf_shards _ W), H.
-  - intros t v Ht. apply multi_cursor_in; auto.
+  - intros t v Ht. rewrite in_vfilter. unfold sel, lo, e.
+    rewrite (multi_cursor_in shs start end_ s f t v W Ht). tauto.
 Qed.
 Print Assumptions C21_filter_points_exact_partial.
+
+(** The row's value condition is the predicate itself on the row's values
+    ([influxql.Reduce] loses nothing) ... *)
+Theorem C21_value_condition_is_predicate : forall p s f v,
+  vpass (value_cond p s f) v = opt_eval_v p s f v.
+Proof. exact value_cond_spec. Qed.
+Print Assumptions C21_value_condition_is_predicate.
+
+(** ... and a whole filter read is exact (every row = its own points filtered by its own
+    condition) when all rows of the request carry a value condition, or none does, or at most
+    one shard is selected. *)
+Theorem C21_filter_value_conditions_partial : forall ty shs start end_ p,
+  let lo := clamp_start start in
+  let e := clamp_end end_ in
+  let sel := select_shards shs lo e in
+  let rows := srows sel p in
+  Forall (fun r => r_cond r <> None) rows \/ Forall (fun r => r_cond r = None) rows \/
+  length sel <= 1 ->
+  read_filter ty shs start end_ p = map (exact_row sel lo (e - 1)) rows.
+Proof.
+  intros ty shs start end_ p lo e sel rows H. unfold read_filter. apply read_rows_uniform.
+  destruct H as [H|[H|H]]; auto.
+Qed.
+Print Assumptions C21_filter_value_conditions_partial.
+
+(** Without [cursor_ok] the statement is FALSE: two shards, one series with integer fields a
+    and b, predicate (_field = "a" AND value > 5) OR _field = "b".  Row a arms the integer
+    cursor's filter with "value > 5"; row b has no condition, so [reset] leaves the filter in
+    place and [nextArrayCursor] applies it to b's second shard: the stored point (11, 2) of b,
+    inside the window and satisfying the predicate, is dropped. *)
+Definition stale_s := mkS "cpu"%string [].
+Definition stale_shs := [
+  mkSh 0 10 [mkSD stale_s [("a"%string, [(1, 1); (6, 10)]%Z); ("b"%string, [(1, 1); (6, 10)]%Z)]];
+  mkSh 10 20 [mkSD stale_s [("a"%string, [(11, 2); (16, 20)]%Z); ("b"%string, [(11, 2); (16, 20)]%Z)]]].
+Definition stale_pred :=
+  POr (PAnd (PCmp false "_field" "a") (PVal VGt 5)) (PCmp false "_field" "b").
+Theorem C21_filter_value_condition_refuted :
+  wf_dataset stale_shs /\
+  stored_point stale_shs stale_s "b" 11 2 /\ (0 <= 11 < 20)%Z /\
+  opt_eval_v (Some stale_pred) stale_s "b" 2 = true /\
+  read_filter [] stale_shs 0 20 (Some stale_pred) =
+    [([("_field", "a"); ("_measurement", "cpu")]%string, [(6, 10); (16, 20)]%Z);
+     ([("_field", "b"); ("_measurement", "cpu")]%string, [(1, 1); (6, 10); (16, 20)]%Z)].
+Proof.
+  assert (SP : forall lo hi pa pb s' f',
+             let sh := mkSh lo hi [mkSD stale_s [("a"%string, pa); ("b"%string, pb)]] in
+             shard_points sh s' f' = [] \/ shard_points sh s' f' = pa \/
+             shard_points sh s' f' = pb).
+  { intros lo hi pa pb s' f' sh. unfold shard_points, sh.
+    cbn [sh_data flat_map sd_series sd_fields].
+    destruct (series_eqb stale_s s'); [|left; reflexivity]. cbn [fst snd].
+    destruct (String.eqb_spec "a" f') as [<-|Na].
+    - right; left. cbn. rewrite !app_nil_r. reflexivity.
+    - destruct (String.eqb "b" f'); [right; right|left]; cbn; rewrite ?app_nil_r; reflexivity. }
+  assert (WF : forall lo hi pa pb,
+             (lo < hi)%Z ->
+             (forall t v, In (t, v) (pa ++ pb) -> (lo <= t < hi)%Z /\ (MinNanoTime <= t <= MaxNanoTime)%Z) ->
+             StronglySorted pt_lt pa -> StronglySorted pt_lt pb ->
+             wf_shard (mkSh lo hi [mkSD stale_s [("a"%string, pa); ("b"%string, pb)]])).
+  { intros lo hi pa pb L R Sa Sb. constructor; [exact L| |].
+    - intros s' f' t v H. apply R, in_or_app.
+      destruct (SP lo hi pa pb s' f') as [E|[E|E]]; rewrite E in H; [destruct H|left|right]; auto.
+    - intros s' f'. destruct (SP lo hi pa pb s' f') as [E|[E|E]]; rewrite E; auto. constructor. }
+  split; [|split; [|split; [|split]]].
+  - constructor.
+    + intros sh [<-|[<-|[]]]; apply WF; try lia;
+        try (repeat constructor; unfold pt_lt; cbn; lia);
+        intros t v H; cbn in H;
+        repeat (destruct H as [H|H]; [inversion H; subst; unfold MinNanoTime, MaxNanoTime; lia|]);
+        destruct H.
+    + repeat constructor; cbn; [intros [H|[]]; discriminate | tauto].
+    + intros a b [<-|[<-|[]]] [<-|[<-|[]]] H; try congruence; unfold disjoint; cbn; lia.
+  - exists (nth 1 stale_shs (mkSh 0 0 [])). split; [right; left; reflexivity|]. vm_compute. auto.
+  - lia.
+  - reflexivity.
+  - vm_compute. reflexivity.
+Qed.
+Print Assumptions C21_filter_value_condition_refuted.
 
 (** ... and the restriction t < MaxNanoTime cannot be removed: [validateArgs] clamps the end of
     the window to MaxNanoTime and the window is end-exclusive, so a point stored at
@@ -111,31 +201,34 @@ Theorem C21_multi_shard_cursor_drain : forall fuel cur rest,
 Proof. exact ms_drain_all. Qed.
 Print Assumptions C21_multi_shard_cursor_drain.
 
-(** Group read (GroupBy), for EVERY data set, window, predicate and key list: the
-    concatenation of the groups is a permutation of the rows of the filter read (those with
-    points, or all of them under HintSchemaAllTime); no group is empty and all rows of a
-    group have the group's sort key; the groups' sort keys are STRICTLY increasing bytewise. *)
-Theorem C21_group_partition : forall shs start end_ p keys all_time,
-  let gs := read_group shs start end_ p GroupBy keys all_time in
-  Permutation (flat_map g_rows gs) (kept_rows shs start end_ p all_time) /\
-  Forall (group_ok keys) gs /\
-  StronglySorted (clt scmp) (map (gk keys) gs).
+(** Group read (GroupBy), for EVERY data set, window, predicate, key list and field typing:
+    the series rows of the groups (identified by their tag sets) are a permutation of the rows
+    kept by the sorting pass (all rows under HintSchemaAllTime, else those whose probe cursor
+    returned a point); no group is empty and all rows of a group have the group's sort key; the
+    groups' sort keys are STRICTLY increasing bytewise. *)
+Theorem C21_group_partition : forall ty shs start end_ p keys all_time,
+  let gs := read_group ty shs start end_ p GroupBy keys all_time in
+  Permutation (concat (group_tags gs)) (map srow_tags (kept_srows ty shs start end_ p all_time)) /\
+  Forall (group_ok keys (fun t => t)) (group_tags gs) /\
+  StronglySorted (clt scmp) (map (gk keys (fun t => t)) (group_tags gs)).
 Proof. exact group_by_spec. Qed.
 Print Assumptions C21_group_partition.
 
 (** ... hence every returned series row is in exactly one group. *)
-Theorem C21_group_exactly_one : forall shs start end_ p keys all_time g1 g2 r,
-  let gs := read_group shs start end_ p GroupBy keys all_time in
-  In g1 gs -> In g2 gs -> In r (g_rows g1) -> In r (g_rows g2) -> g1 = g2.
+Theorem C21_group_exactly_one : forall ty shs start end_ p keys all_time g1 g2 t,
+  let gs := group_tags (read_group ty shs start end_ p GroupBy keys all_time) in
+  In g1 gs -> In g2 gs -> In t g1 -> In t g2 -> g1 = g2.
 Proof. exact group_by_exactly_one. Qed.
 Print Assumptions C21_group_exactly_one.
 
-(** GroupNone: nothing when no row qualifies, else a single group with ALL rows of the
-    filter read in the same order and no partition values. *)
-Theorem C21_group_none : forall shs start end_ p keys all_time,
-  let gs := read_group shs start end_ p GroupNone keys all_time in
-  (kept_rows shs start end_ p all_time = [] /\ gs = []) \/
-  (exists g, gs = [g] /\ g_rows g = read_filter shs start end_ p /\ g_vals g = []).
+(** GroupNone: nothing when no row qualifies, else a single group over ALL series rows of the
+    request in cursor order, without partition values. *)
+Theorem C21_group_none : forall ty shs start end_ p keys all_time,
+  let gs := read_group ty shs start end_ p GroupNone keys all_time in
+  (kept_srows ty shs start end_ p all_time = [] /\ gs = []) \/
+  (exists g, gs = [g] /\ g_vals g = [] /\
+     map fst (g_rows g) =
+     map srow_tags (srows (select_shards shs (clamp_start start) (clamp_end end_)) p)).
 Proof. exact group_none_spec. Qed.
 Print Assumptions C21_group_none.
 
@@ -170,10 +263,10 @@ Definition ex_shs := [
   mkSh 10 20 [mkSD ex_s0 [("f"%string, [(10, 3); (19, 4)]%Z)]; mkSD ex_s1 [("f"%string, [(15, 7)]%Z)]];
   mkSh 0 10 [mkSD ex_s0 [("f"%string, [(0, 1); (9, 2)]%Z)]]].
 Example C21_nonvacuous :
-  read_filter ex_shs 9 20 (Some (PCmp false "t0" "a")) =
+  read_filter [] ex_shs 9 20 (Some (PCmp false "t0" "a")) =
     [([("_field", "f"); ("_measurement", "m"); ("t0", "a")]%string, [(9, 2); (10, 3); (19, 4)]%Z)]
-  /\ map g_vals (read_group ex_shs 0 30 None GroupBy ["t0"%string] false)
+  /\ map g_vals (read_group [] ex_shs 0 30 None GroupBy ["t0"%string] false)
      = [[Some "a"%string]; [None]]
   /\ spec_filter ex_shs 9 20 (Some (PCmp false "t0" "a"))
-     = read_filter ex_shs 9 20 (Some (PCmp false "t0" "a")).
+     = read_filter [] ex_shs 9 20 (Some (PCmp false "t0" "a")).
 Proof. repeat split; vm_compute; reflexivity. Qed.
